@@ -327,6 +327,17 @@ def r_cond(prog, R, L):
                     r.ok(key, w.loc(w.blocks[u].term["ln"]))
                 else:
                     r.viol(key, w.name, w.loc((w.blocks[u].term or {}).get("ln", w.ln)), "ares_queue_wait_empty can leave its wait loop without re-testing the queue and without a failure status: success reported while requests are outstanding")
+    # every single wait (timed or not) sits inside a loop that re-tests the predicate: a wake-up is only a hint (spurious wake-ups; a request enqueued between the
+    # broadcast and the waiter getting the lock back)
+    for b, i, c in w.calls():
+        if c.get("callee") in ("ares_thread_cond_wait", "ares_thread_cond_timedwait"):
+            inl = any(b.id in body and w.branch(h) and "ares_llist_len" in render(w.branch(h)[0]) for h, body in loops.items())
+            key = "%s re-tests the queue after waking" % c["callee"]
+            if inl:
+                r.ok(key, w.loc(c["ln"]))
+            else:
+                r.viol(key, w.name, w.loc(c["ln"]), "%s is not inside a loop on 'all_queries is empty': its status is returned as is, so a wake-up followed by a new request (or a spurious "
+                       "wake-up) reports success while requests are outstanding" % c["callee"])
     if okloop:
         r.ok("wait loops on the predicate", w.loc(w.ln))
     else:
